@@ -78,8 +78,9 @@ example : reconnect 1000 8000 5 = some ⟨[1000, 2000, 4000, 8000, 8000, 8000], 
 /-- **The source still has the shape the model mirrors** (regenerated on every run; `decide` fails when the Go code
 changes): hashed concatenation order, SHA-256, the backoff statements of the retry loop, the routing branch of
 `ErrChanSwitch.run` under the mutex, `Divert`/`Restore`, the bookkeeping order of `HandleServerShutdown`
-(a loop around `reconnect` that starts over while `reconnectDirty`; in `reconnect` all keys are deleted before
-re-subscribing and the first error is returned after `keepSubscriptions`), the reader's reaction to a shutdown notice
+(a loop around the reconnect body – whatever the helper is called – that starts over while `reconnectDirty`; in the
+body a failing `checkPendingBatch` replaces every subscription by an inactive one before returning, then all keys are
+deleted before re-subscribing and the first error is returned after `keepSubscriptions`), the reader's reaction to a shutdown notice
 (only close + mark dirty while a re-connect is in progress) and `connectAndAuthenticate` (map insertion before
 `authenticate`, divert before / restore deferred), the calls of `authenticate`, and `serverHandler`'s reaction. -/
 theorem C18_source_shape :
@@ -96,10 +97,11 @@ theorem C18_source_shape :
     Pool.Gen.C18.switchDivert = "s.Lock(); defer s.Unlock(); s.tempChan = tempChan; s.diverted = true" ∧
     Pool.Gen.C18.switchRestore = "s.Lock(); defer s.Unlock(); s.tempChan = nil; s.diverted = false" ∧
     Pool.Gen.C18.handleShutdownShape =
-      ["c.reconnecting++", "c.reconnect", "if c.reconnectDirty", "c.reconnectDirty = false", "continue",
+      ["c.reconnecting++", "c.<reconnect-body>", "if c.reconnectDirty", "c.reconnectDirty = false", "continue",
        "c.reconnecting--", "return err", "c.closeStream", "c.connectServerStream", "return err",
-       "c.checkPendingBatch", "return err", "range c.subscribedAccts", "delete", "range acctKeys",
-       "c.StartAccountSubscription", "c.keepSubscriptions", "return err", "return nil"] ∧
+       "c.checkPendingBatch", "range c.subscribedAccts", "delete", "c.keepSubscriptions", "return err",
+       "range c.subscribedAccts", "delete", "range acctKeys", "c.StartAccountSubscription", "c.keepSubscriptions",
+       "return err", "return nil"] ∧
     Pool.Gen.C18.shutdownNoticeReaction =
       ["if c.reconnecting > 0", "c.reconnectDirty = true", "c.closeStream", "return", "c.HandleServerShutdown",
        "return"] ∧
@@ -212,7 +214,7 @@ theorem C18_resubscribed_once : C18_resubscribed_statement Variant.fixed := by
     fun c2 hl hp hs => ⟨healthy_of_live hl, hl.alive, hl.perm.trans hp, hl.succ, hp, hs⟩
   rcases hop with rfl | rfl
   · -- transport error while idle: reader → switch (not diverted) → main handler → HandleServerShutdown(err)
-    obtain ⟨f1, f2, _, _, f5, f6, _, _, _, f10⟩ :=
+    obtain ⟨f1, f2, _, _, f5, f6, _, _, _, f10, f11⟩ :=
       setCur_fields (c.script k beh) (fun s => { s with alive := false })
     let c1 : Client := { (c.script k beh).failStream with
       mainErrs := (c.script k beh).failStream.mainErrs ++ [ErrClass.serverErrored] }
@@ -220,17 +222,19 @@ theorem C18_resubscribed_once : C18_resubscribed_statement Variant.fixed := by
       (by show (c.script k beh).failStream.accts.Nodup; rw [Client.failStream, f1]; exact hnd)
       (by show (c.script k beh).failStream.chaos = false; rw [Client.failStream, f5]; exact hch)
       (by show (c.script k beh).failStream.failOpen = 0; rw [Client.failStream, f10]; rfl)
+      (by show (c.script k beh).failStream.failBatch = 0; rw [Client.failStream, f11]; rfl)
       (by show FaultsOnly (c.script k beh).failStream.beh; rw [Client.failStream, f2]; exact ht)
       (by show (c.script k beh).failStream.beh.length ≤ _; rw [Client.failStream, f2]; exact le_refl _)
       (by show (c.script k beh).failStream.beh.length ≤ _; rw [Client.failStream, f2]; exact le_refl _)
     have e : c' = { c2 with handlerRes := c2.handlerRes ++ [ErrClass.none_] } := by
       have hbl : (c.script k beh).beh = beh := rfl
       have hfo : (c.script k beh).failOpen = 0 := rfl
-      simp only [c', Client.step, hopen', halive', Bool.and_self, if_true, Client.mainHandler, hbl, hfo, Nat.add_zero]
+      have hfb : (c.script k beh).failBatch = 0 := rfl
+      simp only [c', Client.step, hopen', halive', Bool.and_self, if_true, Client.mainHandler, hbl, hfo, hfb, Nat.add_zero]
       simp only [hsF] at h
       exact handlerLoop_ok _ _ _ c1 c2 h
     have hl' : Live { c2 with handlerRes := c2.handlerRes ++ [ErrClass.none_] } :=
-      ⟨hl.isOpen, hl.alive, hl.perm, hl.succ, hl.nodup, hl.chaos, hl.fo⟩
+      ⟨hl.isOpen, hl.alive, hl.perm, hl.succ, hl.nodup, hl.chaos, hl.fo, hl.fb⟩
     rw [e]
     have hp1 : List.Perm c2.accts c.accts := by
       refine hp.trans ?_
@@ -243,11 +247,12 @@ theorem C18_resubscribed_once : C18_resubscribed_statement Variant.fixed := by
       omega
     exact fin _ hl' hp1 hs1
   · -- shutdown notice while idle: the reader goroutine runs HandleServerShutdown(nil) itself
-    obtain ⟨c2, h, hl, hp, _, _, hs⟩ := hss_of_P pick hpick beh.length hP beh.length (c.script k beh) hnd hch rfl ht (le_refl _) (le_refl _)
+    obtain ⟨c2, h, hl, hp, _, _, hs⟩ := hss_of_P pick hpick beh.length hP beh.length (c.script k beh) hnd hch rfl rfl ht (le_refl _) (le_refl _)
     have e : c' = c2 := by
       have hbl : (c.script k beh).beh = beh := rfl
       have hfo : (c.script k beh).failOpen = 0 := rfl
-      simp only [c', Client.step, hopen', halive', Bool.and_self, if_true, Client.readerShutdown, hbl, hfo, Nat.add_zero]
+      have hfb : (c.script k beh).failBatch = 0 := rfl
+      simp only [c', Client.step, hopen', halive', Bool.and_self, if_true, Client.readerShutdown, hbl, hfo, hfb, Nat.add_zero]
       simp only [hsF] at h
       rw [h]
     rw [e]
@@ -283,10 +288,11 @@ theorem C18_subscribe_resilient (pick : List Nat → List Nat) (hpick : ∀ l, L
   have hP := PHs_all pick hpick beh.length
   have hbl : (c.script k beh).beh = beh := rfl
   have hfo : (c.script k beh).failOpen = 0 := rfl
+  have hfb : (c.script k beh).failBatch = 0 := rfl
   by_cases ha : a ∈ c.accts
   · have : r = (c.script k beh, .ok) := by
       have ha' : a ∈ (c.script k beh).accts := ha
-      simp only [r, Client.step, hbl, hfo, Nat.add_zero]
+      simp only [r, Client.step, hbl, hfo, hfb, Nat.add_zero]
       cases hbl : beh.length <;> simp [hsLevel, Client.connectAndAuth, ha']
     rw [this]
     exact ⟨Or.inl rfl, ⟨hnd, hch, hst⟩, by simp [Client.script, addAcct, ha]⟩
@@ -300,7 +306,7 @@ theorem C18_subscribe_resilient (pick : List Nat → List Nat) (hpick : ∀ l, L
       simp only [hsF] at h
       rcases o with ⟨rfl, p⟩ | ⟨rfl, ab⟩
       · have : r = (c', .ok) := by
-          simp only [r, Client.step, hbl, hfo, Nat.add_zero, heq]
+          simp only [r, Client.step, hbl, hfo, hfb, Nat.add_zero, heq]
           rw [h]
         rw [this]
         refine ⟨Or.inl rfl, healthy_of_live p.live, ?_⟩
@@ -309,10 +315,10 @@ theorem C18_subscribe_resilient (pick : List Nat → List Nat) (hpick : ∀ l, L
         simpa [addAcct, ha] using this
       · -- the notice hit this very handshake: the stream's reader runs HandleServerShutdown(nil)
         obtain ⟨c2, h2', hl2, hp2, _, _, _⟩ := hss_of_P pick hpick beh.length hP beh.length c' ab.nodup ab.chaos ab.fo
-          ab.tr (by have := ab.len; rw [h2] at this; omega) (by have := ab.len; rw [h2] at this; omega)
+          ab.fb ab.tr (by have := ab.len; rw [h2] at this; omega) (by have := ab.len; rw [h2] at this; omega)
         simp only [hsF] at h2'
         have : r = (c2, .err) := by
-          simp only [r, Client.step, hbl, hfo, Nat.add_zero, heq]
+          simp only [r, Client.step, hbl, hfo, hfb, Nat.add_zero, heq]
           rw [h]
           simp only [Client.readerShutdown, h2']
         rw [this]
@@ -324,12 +330,12 @@ theorem C18_subscribe_resilient (pick : List Nat → List Nat) (hpick : ∀ l, L
     · have hcl' : (c.script k beh).isOpen = false := hcl
       have ha' : a ∉ (c.script k beh).accts := ha
       refine key (c.script k beh).connectStream ?_ rfl rfl ?_
-      · refine ⟨rfl, rfl, ?_, rfl, ?_, hch, rfl⟩
+      · refine ⟨rfl, rfl, ?_, rfl, ?_, hch, rfl, rfl⟩
         · show List.Perm [] c.accts; rw [hemp]
         · show c.accts.Nodup; exact hnd
       · cases beh.length <;>
-          simp [hsLevel, Client.connectAndAuth, ha', hcl', Client.connectStream, hfo]
-    · exact key (c.script k beh) ⟨hop, halive, hperm, hsucc, hnd, hch, rfl⟩ rfl rfl rfl
+          simp [hsLevel, Client.connectAndAuth, ha', hcl', Client.connectStream, hfo, hfb]
+    · exact key (c.script k beh) ⟨hop, halive, hperm, hsucc, hnd, hch, rfl, rfl⟩ rfl rfl rfl
 
 /-- **The clause is false for the code before the repairs** (finding `resubscribe-abort-drops-accounts`, now fixed):
 three accounts, shutdown notice, the second re-subscription is hit by a transport error before the challenge – the
@@ -358,6 +364,16 @@ example : FaultsOnly [.shutAC, .ok, .shutBC] ∧
     ((witness3.script 0 [.shutAC, .ok, .shutBC]).step Variant.fixed id .errIdle).1.handlerRes = [.none_] := by
   refine ⟨by intro b hb; simp at hb; rcases hb with rfl | rfl | rfl <;> simp, by decide +kernel, by decide +kernel,
     by decide +kernel⟩
+
+-- a failing pending-batch check during the reconnect (b7e2cef): every account is kept for the next attempt, which the
+-- main handler makes; nothing is closed twice (the model has no second close of the same subscription to offer: the
+-- kept entries are fresh inactive ones)
+example :
+    ((witness3.script 1 [] 0 1).step Variant.fixed id .errIdle).1.cur.success = [0, 1, 2] ∧
+    ((witness3.script 1 [] 0 1).step Variant.fixed id .errIdle).1.handlerRes = [.other, .none_] ∧
+    ((witness3.script 1 [] 0 1).step Variant.fixed id .errIdle).1.streams.length = 3 ∧
+    ((witness3.script 0 [] 1 2).step Variant.fixed id .shutIdle).1.cur.success = [0, 1, 2] ∧
+    ((witness3.script 0 [] 1 2).step Variant.fixed id .shutIdle).1.mainErrs = [.other] := by decide +kernel
 
 theorem C18_each_repair_needed :
     ((witness3.script 0 [.errBC]).step ⟨true, false, true, true⟩ id (.sub 3)).1.cur.alive = false ∧
